@@ -15,7 +15,7 @@ def run(tier, seed):
              'distinct_nontrivial = distinct executions that assume at least one distance literal',
         models=[('MC_DiffLogicImpl', 'MC_DiffLogicImpl_quick.cfg', 'MC_DiffLogicImpl.cfg',
                  'implementation-shaped model of idl_theory (incremental update, predecessors, enforcing constraints, first-write-wins undo layers): DistExact, ConflictIffNegCycle, ExplanationsValid, PopRestores* over all assert / negate / push / pop histories', None)],
-        dlimpl=(False, True, (False, 'DiffLogicGen_idl_chain.cfg'), (True, 'DiffLogicGen_rdl_chain.cfg'), (False, 'DiffLogicGen_idl_undo.cfg'), (True, 'DiffLogicGen_rdl_undo.cfg'), (False, 'DiffLogicGen_idl_sim.cfg'), (True, 'DiffLogicGen_rdl_sim.cfg')),
+        dlimpl=(False, True, (False, 'DiffLogicGen_idl_chain.cfg'), (True, 'DiffLogicGen_rdl_chain.cfg'), (False, 'DiffLogicGen_idl_undo.cfg'), (True, 'DiffLogicGen_rdl_undo.cfg'), (False, 'DiffLogicGen_idl_sim.cfg'), (True, 'DiffLogicGen_rdl_sim.cfg'), (False, 'DiffLogicGen_idl_tie.cfg'), (True, 'DiffLogicGen_rdl_tie.cfg')),
         assumptions=['at most 6 theory atoms per execution'])
 
 
